@@ -461,6 +461,28 @@ pub fn c16(ctx: &mut Ctx, tier: &str, seed: u64) {
             if tconv.as_bytes() != conv.as_slice() || tconv.is_windows() != dst_win {
                 ctx.fail("typed-conversion-agrees", None, rp.clone(), String::new());
             }
+            // the checked shortcuts of the typed wrappers (borrowed and owned) must agree with the
+            // checked conversion of the wrapped path
+            let tchk: Result<Vec<u8>, CheckedPathError> = (if dst_win { tp.with_windows_encoding_checked() } else { tp.with_unix_encoding_checked() }).map(|x| x.as_bytes().to_vec());
+            let tb = tp.to_path_buf();
+            let tbchk: Result<Vec<u8>, CheckedPathError> = (if dst_win { tb.with_windows_encoding_checked() } else { tb.with_unix_encoding_checked() }).map(|x| x.as_bytes().to_vec());
+            let tbconv = if dst_win { tb.with_windows_encoding() } else { tb.with_unix_encoding() };
+            if tchk != convc || tbchk != convc || tbconv.as_bytes() != conv.as_slice() {
+                ctx.fail("typed-checked-conversion-agrees", None, rp.clone(), format!("typed {:?} / {:?}, untyped {:?}", tchk.as_ref().map(|x| lossy(x)), tbchk.as_ref().map(|x| lossy(x)), convc.as_ref().map(|x| lossy(x))));
+            }
+            // same-encoding shortcuts of the typed wrappers
+            let tsame: Result<Vec<u8>, CheckedPathError> = (if src_win { tp.with_windows_encoding_checked() } else { tp.with_unix_encoding_checked() }).map(|x| x.as_bytes().to_vec());
+            if tsame != same_c {
+                ctx.fail("typed-checked-same-encoding-agrees", None, format!("conv {} {} {}", se, se, hex(s)), String::new());
+            }
+            if let Ok(st) = std::str::from_utf8(s) {
+                let up = if src_win { Utf8TypedPath::windows(st) } else { Utf8TypedPath::unix(st) };
+                let uchk: Result<Vec<u8>, CheckedPathError> = (if dst_win { up.with_windows_encoding_checked() } else { up.with_unix_encoding_checked() }).map(|x| x.as_str().as_bytes().to_vec());
+                let uconv = if dst_win { up.with_windows_encoding() } else { up.with_unix_encoding() };
+                if uchk != convc || uconv.as_str().as_bytes() != conv.as_slice() {
+                    ctx.fail("utf8-typed-conversion-agrees", None, rp.clone(), String::new());
+                }
+            }
             if let Ok(st) = std::str::from_utf8(s) {
                 let u: Vec<u8> = if src_win { Utf8WindowsPath::new(st).with_unix_encoding().into_string().into_bytes() } else { Utf8UnixPath::new(st).with_windows_encoding().into_string().into_bytes() };
                 let uc: Result<Vec<u8>, CheckedPathError> = if src_win { Utf8WindowsPath::new(st).with_unix_encoding_checked().map(|x| x.into_string().into_bytes()) } else { Utf8UnixPath::new(st).with_windows_encoding_checked().map(|x| x.into_string().into_bytes()) };
